@@ -196,8 +196,18 @@ theorem cinv_step (g : Cfg) (hl : g.leak = false) (s s' : St) (a : Act) (h : CIn
     · rename_i hd
       split at hs
       · cases hs
-        exact ⟨by simp [nFailed, dFailed, stopTerm, hd] at hc ⊢; omega, hb⟩
+        exact ⟨by cases g.nodrain <;> (simp [nFailed, dFailed, stopTerm, hd] at hc ⊢; omega), hb⟩
       · cases hs
+    · cases hs
+  | dDrain =>
+    simp only [step] at hs
+    split at hs
+    · rename_i t q hd _
+      cases hs
+      exact ⟨by simp [nFailed, dFailed, stopTerm, hd] at hc ⊢; omega, hb⟩
+    · rename_i hd _
+      cases hs
+      exact ⟨by simp [nFailed, dFailed, stopTerm, hd] at hc ⊢; omega, hb⟩
     · cases hs
   | dFork =>
     simp only [step] at hs
@@ -223,6 +233,9 @@ theorem cinv_step (g : Cfg) (hl : g.leak = false) (s s' : St) (a : Act) (h : CIn
   | dFinish p =>
     simp only [step] at hs
     split at hs
+    · rename_i t hd
+      cases hs
+      exact ⟨by simp [nFailed, dFailed, stopTerm, hd] at hc ⊢; omega, hb⟩
     · rename_i t hd
       cases hs
       exact ⟨by simp [nFailed, dFailed, stopTerm, hd] at hc ⊢; omega, hb⟩
@@ -358,8 +371,18 @@ theorem cons_step (g : Cfg) (s s' : St) (a : Act) (h : Cons s) (hs : step g s a 
     · rename_i hd
       split at hs
       · cases hs
-        simp [List.count_append, dTask, hd] at h0 ⊢; omega
+        cases g.nodrain <;> (simp [List.count_append, dTask, hd] at h0 ⊢; omega)
       · cases hs
+    · cases hs
+  | dDrain =>
+    simp only [step] at hs
+    split at hs
+    · rename_i t q hd hq
+      cases hs
+      simp [List.count_append, dTask, hd, hq, List.count_cons] at h0 ⊢; omega
+    · rename_i hd hq
+      cases hs
+      simp [List.count_append, dTask, hd, hq] at h0 ⊢; omega
     · cases hs
   | dFork =>
     simp only [step] at hs
@@ -378,6 +401,9 @@ theorem cons_step (g : Cfg) (s s' : St) (a : Act) (h : Cons s) (hs : step g s a 
   | dFinish p =>
     simp only [step] at hs
     split at hs
+    · rename_i t hd
+      cases hs
+      simp [List.count_append, dTask, hd, List.count_cons] at h0 ⊢; omega
     · rename_i t hd
       cases hs
       simp [List.count_append, dTask, hd, List.count_cons] at h0 ⊢; omega
